@@ -13,23 +13,23 @@ import (
 )
 
 type Result struct {
-	Property     string         `json:"property"`
-	Tier         string         `json:"tier"`
-	Seed         int64          `json:"seed"`
-	Histories    int            `json:"histories"`
-	Steps        int            `json:"steps"`
-	Distinct     int            `json:"distinct_histories"`
-	CmdHist      map[string]int `json:"command_histogram"`
-	ErrHist      map[string]int `json:"error_histogram"`
-	Samples      []string       `json:"samples"`
-	Mismatches   []*Mismatch    `json:"mismatches"`
-	Replays      []string       `json:"replays"`
-	Flaky        int            `json:"unreproduced_mismatches"`
-	KnownActive  map[string]string `json:"known_findings_active"`
-	KnownHits    map[string]int `json:"known_finding_hits"`
-	Extra        map[string]any `json:"extra,omitempty"`
-	WallS        float64        `json:"wall_s"`
-	InfraError   string         `json:"infra_error,omitempty"`
+	Property    string            `json:"property"`
+	Tier        string            `json:"tier"`
+	Seed        int64             `json:"seed"`
+	Histories   int               `json:"histories"`
+	Steps       int               `json:"steps"`
+	Distinct    int               `json:"distinct_histories"`
+	CmdHist     map[string]int    `json:"command_histogram"`
+	ErrHist     map[string]int    `json:"error_histogram"`
+	Samples     []string          `json:"samples"`
+	Mismatches  []*Mismatch       `json:"mismatches"`
+	Replays     []string          `json:"replays"`
+	Flaky       int               `json:"unreproduced_mismatches"`
+	KnownActive map[string]string `json:"known_findings_active"`
+	KnownHits   map[string]int    `json:"known_finding_hits"`
+	Extra       map[string]any    `json:"extra,omitempty"`
+	WallS       float64           `json:"wall_s"`
+	InfraError  string            `json:"infra_error,omitempty"`
 }
 
 type runCfg struct {
